@@ -110,6 +110,9 @@ def run(tier, seed):
         sup.append(("table kind", f"CREATE {w2} TABLE t1 (a int, b varchar(5));\nCREATE TABLE t2 (c int);\n"))
         if w not in ("LOCAL TEMPORARY", "GLOBAL TEMPORARY"):     # (two kind words + IF NOT EXISTS is not a form the grammar has: OBSERVATIONS.md)
             sup.append(("table kind", f"CREATE TABLE t0 (c int);\nCREATE {w2} TABLE IF NOT EXISTS s1.t1 (a int, b varchar(5)) ;\n"))
+    for tail_ in ("ON COMMIT DROP", "ON COMMIT PRESERVE ROWS", "on commit drop"):
+        for w in ("TEMP", "TEMPORARY", "GLOBAL TEMPORARY"):
+            sup.append(("table kind", f"CREATE {w} TABLE t1 (a int, b varchar(5)) {tail_};\nCREATE TABLE t2 (c int);\n"))
     states += gt.distinct + gr.distinct + ge.distinct + gc.distinct
     trans += gt.generated + gr.generated + ge.generated + gc.generated
     tasks = [(t, {"silent": False}, {}) for _, t in sup] + [(t, {}, {}) for _, t in sup]
